@@ -107,6 +107,69 @@ def cases(rng, which, count):
                     fl += ["--genetic-code", rng.choice(["standard", "mitov", "mitoi"])]
                 nt = [(nm, "".join(rng.choice("ACGTacgtN-") for _ in range(L))) for nm, _ in rows]
                 yield Case("cli_lib", [esc(fasta(nt)), "translate"] + fl, True, "cli-translate")
+            elif w == "trim":
+                yield Case("cli_lib", [st, "trim", "seq", "-n", str(rng.choice([-1, 0, 1, 2, L - 1, L, L + 1]))] + (["-s"] if rng.random() < 0.5 else []), True, "cli-trim-seq")
+                if rng.random() < 0.3:
+                    yield Case("cli_lib", [st, "trim", "seq"], True, "cli-trim-seq-default")
+                long_rows = [("%s%s" % (rng.choice(["name_", "x:y_", "Seq", "abcdefgh"]), nm), sq) for nm, sq in rows]
+                sl = esc(fasta(long_rows))
+                nn = str(rng.choice([1, 2, 3, 4, 5, 6, 10]))
+                yield Case("cli_lib", [sl, "trim", "name", "-n", nn], True, "cli-trim-name")
+                yield Case("cli_lib", [sl, "trim", "name", "-a"], True, "cli-trim-name-auto")
+                yield Case("cli_libf", [sl, "_", "trim", "name", "-m", "map.txt", "-n", nn], True, "cli-trim-name-map")
+                yield Case("cli_libf", [sl, "_", "trim", "name", "-m", "map.txt", "-a"], True, "cli-trim-name-auto-map")
+            elif w == "rename":
+                odd = [("%s%s" % (rng.choice(["a b", "x(1)", "t;u", "p:q", "n,m", "[k]", "ok"]), nm), sq) for nm, sq in rows]
+                yield Case("cli_lib", [esc(fasta(odd)), "rename", "--clean-names"], True, "cli-rename-clean")
+                names = [r[0] for r in rows]
+                keys = rng.sample(names + ["nope"], rng.randint(1, len(names)))
+                tg = ["N%d" % i for i in range(len(keys))]
+                if rng.random() < 0.3 and len(names) > 1:
+                    tg[0] = rng.choice(names)      # renamed onto an existing name
+                rev = rng.random() < 0.4
+                mp = "|".join(("%s~%s" % (b, a)) if rev else ("%s~%s" % (a, b)) for a, b in zip(keys, tg)) + "|"
+                yield Case("cli_libf", [st, "m.txt=" + mp, "rename", "-m", "m.txt"] + (["-r"] if rev else []), True, "cli-rename-map")
+            elif w == "replace":
+                o = rng.choice(["A", "AC", "-", "N", "a", "GT", "--"])
+                nw = rng.choice(["T", "GG", "-", "N", "tt", "--"])
+                if len(o) != len(nw) and rng.random() < 0.7:
+                    nw = (nw * 2)[:len(o)]
+                yield Case("cli_lib", [st, "replace", "-s", o, "-n", nw], True, "cli-replace")
+            elif w == "concat":
+                names = [r[0] for r in rows]
+                L2 = rng.randint(1, 8)
+                on = rng.sample(names, rng.randint(0, len(names))) + (["extra"] if rng.random() < 0.5 else [])
+                rng.shuffle(on)
+                if on:
+                    other = [(nm, "".join(rng.choice(SYM) for _ in range(L2))) for nm in on]
+                    fl = ["-l", "log.txt"] if rng.random() < 0.5 else []
+                    yield Case("cli_libf", [st, "o.fa=" + esc(fasta(other)), "concat", "o.fa"] + fl, True, "cli-concat")
+                ap = [(rng.choice(names + ["n1", "n2", "n3"]), "".join(rng.choice(SYM) for _ in range(rng.choice([L, L, L, L + 1])))) for _ in range(rng.randint(1, 3))]
+                yield Case("cli_libf", [st, "o.fa=" + esc(fasta(ap)), "append", "o.fa"], True, "cli-append")
+            elif w == "cleanseqs":
+                cut = rng.choice(["0", "0.25", "0.5", "0.75", "1", "0.1", "0.3"])
+                fl = []
+                ch = rng.choice(["GAP", "GAP", "N", "A", "-", "n", "R"])
+                if ch != "GAP":
+                    fl += ["--char", ch]
+                if ch not in ("GAP", "-") and rng.random() < 0.3:
+                    fl.append("--ignore-gaps")
+                if ch not in ("N", "n") and rng.random() < 0.3:
+                    fl.append("--ignore-n")
+                if ch not in ("GAP", "-") and rng.random() < 0.3:
+                    fl.append("--ignore-case")
+                yield Case("cli_lib", [st, "clean", "seqs", "-c", cut] + fl, True, "cli-clean-seqs")
+            elif w == "gapstats":
+                gr = [(nm, "".join(rng.choice("ACGT-" + "-" * rng.choice([0, 4])) for _ in range(L))) for nm, _ in rows]
+                sg = esc(fasta(gr))
+                for f in ("--from-start", "--from-end", "--openning", "--unique"):
+                    yield Case("cli_lib", [sg, "stats", "gaps", f], True, "cli-stats-gaps" + f)
+            elif w == "mutstats":
+                base = "".join(rng.choice("ACGT") for _ in range(L))
+                mr = [(nm, "".join(rng.choice("ACGTNRY-") if rng.random() < 0.25 else b for b in base)) for nm, _ in rows]
+                sm = esc(fasta(mr))
+                yield Case("cli_lib", [sm, "stats", "mutations", "--unique"], True, "cli-stats-mutations-unique")
+                yield Case("cli_lib", [sm, "stats", "mutations", "--ref-sequence", rng.choice(mr)[0]], True, "cli-stats-mutations-ref")
             elif w == "clean":
                 cut = rng.choice(["0", "0.25", "0.5", "0.75", "1", "0.1", "0.3"])
                 fl = []
@@ -127,6 +190,13 @@ def cases(rng, which, count):
 
 
 def shrink(c):
+    if c.op == "cli_libf":
+        # shrink the alignment on stdin only; the files and the arguments stay
+        inner = Case("cli_lib", [c.args[0]] + list(c.args[2:]))
+        for k in shrink(inner):
+            if k.args[:1] != c.args[:1] and list(k.args[1:]) == list(c.args[2:]):
+                yield Case("cli_libf", [k.args[0], c.args[1]] + list(c.args[2:]))
+        return
     recs = [r for r in c.args[0].split(">") if r]
     rows = []
     for r in recs:
